@@ -125,6 +125,26 @@ Definition is_stop (r : ores) : bool := match r with RAssert _ | RUB => true | _
 (* QS lock_guard offers only the locking constructor, lock, unlock and the destructor *)
 Definition movable (k : gkind) : bool := match k with KQs => false | _ => true end.
 
+(* The API surface through which ownership can be transferred or duplicated, per guard type -- what the C++ type
+   traits is_copy_constructible / is_move_constructible / is_copy_assignable / is_move_assignable / is_swappable
+   report for the real classes.  unique_lock and shared_lock: deleted copy constructor, move constructor,
+   operator= taking its argument BY VALUE (so only rvalues can be assigned) and a friend swap; QS lock_guard:
+   copy construction and copy assignment deleted, hence no implicit move operations and no swap.
+   The harness prints this table from the real types (script op `api`) and the driver prints [offered]; the
+   harness additionally EXECUTES every transfer operation a type offers, expected or not. *)
+Inductive xfer_op := XCopyCons | XMoveCons | XCopyAssign | XMoveAssign | XSwap.
+Definition offered (k : gkind) : list xfer_op :=
+  match k with
+  | KUnique | KShared => [XMoveCons; XMoveAssign; XSwap]
+  | KQs => []
+  end.
+Definition xfer_eqb (a b : xfer_op) : bool :=
+  match a, b with
+  | XCopyCons, XCopyCons | XMoveCons, XMoveCons | XCopyAssign, XCopyAssign | XMoveAssign, XMoveAssign | XSwap, XSwap => true
+  | _, _ => false
+  end.
+Definition offers (k : gkind) (x : xfer_op) : bool := existsb (xfer_eqb x) (offered k).
+
 Definition lift_guard (s : store) (g : gid) (r : res (guard * list mcall)) : store * list mcall * ores :=
   match r with
   | Ok (g', cs) => (sset s g (Some g'), cs, RUnit)
